@@ -80,6 +80,17 @@ func g4lex(src string) ([]g4tok, error) {
 			}
 			out = append(out, g4tok{"id", string(rs[i:j])})
 			i = j
+		case c == '<':
+			// element option such as <assoc=right>: kept as one token (it changes the meaning of the rule)
+			j := i
+			for j < len(rs) && rs[j] != '>' {
+				j++
+			}
+			if j >= len(rs) {
+				return nil, fmt.Errorf("unterminated <option>")
+			}
+			out = append(out, g4tok{"opt", string(rs[i : j+1])})
+			i = j + 1
 		case c == '.' && i+1 < len(rs) && rs[i+1] == '.':
 			out = append(out, g4tok{"punct", ".."})
 			i += 2
@@ -353,6 +364,8 @@ func (p *g4parser) parseAtom() (*gnode, error) {
 		return nil, fmt.Errorf("unsupported operand of ~")
 	case t.kind == "punct" && t.text == ".":
 		return &gnode{kind: "any"}, nil
+	case t.kind == "opt":
+		return &gnode{kind: "option", text: strings.Join(strings.Fields(t.text), "")}, nil
 	case t.kind == "lit":
 		if p.isPunct("..") {
 			p.next()
@@ -566,6 +579,8 @@ func canon(n *gnode) string {
 		s = canon(n.kids[0]) + "*"
 	case "plus":
 		s = canon(n.kids[0]) + "+"
+	case "option":
+		s = n.text
 	default:
 		s = "<" + n.kind + ">"
 	}
